@@ -281,9 +281,11 @@ class FrameExecutor(AlgoExecutor):
             if not b:
                 out.append((s, _Raised("KeyError")))
                 continue
-            target = s.locals.get("target")
+            target = getattr(self, "clock_target", None) or s.locals.get("target")
             if isinstance(target, RefV):
                 self.read_site(s, "frame.loc[t]", d, self.now_of(s, target))
+            else:
+                s.oblige("%s/unclassified-read-of-unwindowed-data" % self.cur_func[-1], False, kind="read", props=("C04",), info=dict(expr="no clock in scope"))
             out.append((s, RowV(LabelSet(lambda x: fcol_mem(tok, x), lambda x: fcol_ord(tok, x), "frame.loc[t]"), lambda x, d=d: Num(fcell(tok, d.r, x), fcell_nan(tok, d.r, x), False))))
         return out
 
@@ -383,7 +385,8 @@ class FrameExecutor(AlgoExecutor):
         if isinstance(key, str):
             tokf = z3.Function("data_" + key, dsl.Ref, dsl.Ref)
             return AuxFrameV(tokf(strat.term))
-        self._undecided("get_data key")
+        # a key the model does not track (held in an opaque attribute of the algo): some frame bound at Backtest creation
+        return AuxFrameV(dsl.fresh_ref("data_frame"))
 
     def ext_invert(self, st, v):
         if isinstance(v, MaskV):
@@ -747,3 +750,33 @@ def _iter_adapter(self, it, st):
 
 
 FrameExecutor.iter_adapter = _iter_adapter
+
+
+# ---------------------------------------------------------------------------------------------
+# the cached universe window of a strategy:  _funiverse = _universe.loc[: hi]   (only its bound is modelled)
+class FrameWinV(object):
+    def __init__(self, owner, hi):
+        self.owner, self.hi = owner, hi
+
+
+_old_load_attr2 = FrameExecutor.ext_load_attr
+
+
+def _w_load_attr(self, st, obj, attr):
+    if isinstance(obj, RefV) and attr == "_funiverse":
+        return [(st, FrameWinV(obj, st.heap.get(obj, "_funiverse_hi")))]
+    return _old_load_attr2(self, st, obj, attr)
+
+
+FrameExecutor.ext_load_attr = _w_load_attr
+
+_old_load_sub2 = FrameExecutor.ext_load_subscript
+
+
+def _w_load_sub(self, st, base, i):
+    if isinstance(base, BoundFn) and base.kind == "loc" and isinstance(base.recv, FrameV) and base.recv.field == "_universe" and isinstance(i, _SliceV) and i.lo is None and i.hi is not None:
+        return [(st, FrameWinV(base.recv.owner, self._num(st, i.hi)))]
+    return _old_load_sub2(self, st, base, i)
+
+
+FrameExecutor.ext_load_subscript = _w_load_sub
